@@ -100,6 +100,16 @@ theorem Reach.eq_of_no_parent {t : Tree} {i a : Nat} {w : Win} (h : Reach t i a)
     rw [hw] at hw'; cases hw'
     rw [hp] at hp'; cases hp'
 
+/-- Chains survive any change that keeps every parent link. -/
+theorem Reach.mono {t t' : Tree}
+    (h : ∀ (i : Nat) (w : Win) (p : Nat), t.wins[i]? = some w → w.parent = some p → ∃ w', t'.wins[i]? = some w' ∧ w'.parent = some p)
+    {i a : Nat} (hr : Reach t i a) : Reach t' i a := by
+  induction hr with
+  | refl => exact .refl _
+  | step hw hp _ ih =>
+    obtain ⟨w', hw', hp'⟩ := h _ _ _ hw hp
+    exact .step hw' hp' ih
+
 /-! ## the structural invariant of the window tree -/
 
 structure TInv (t : Tree) : Prop where
